@@ -529,3 +529,75 @@ def text_roundtrip(inp):
     if got.shape != want.shape or not same(got, want):
         return f"saved {describe(want)} (exponents {rows}) via {inp.get('via', 'path')} encoding {inp.get('encoding')}, loaded {describe(got)} (exponents {r.exponents.tolist()})"
     return None
+
+
+# ------------------------------------------------------------------ many indeterminates (the compiled kernel's key buffer)
+_CHILD = r'''
+import sys
+sys.path.insert(0, sys.argv[1])
+import numpy, numpoly
+n, dtype = int(sys.argv[2]), sys.argv[3]
+names = tuple(f"q{i}" for i in range(n))
+def unit(*ds):
+    row = [0] * n
+    for d in ds:
+        row[d] += 1
+    return tuple(row)
+# a = q0 + 2*q_{n-1} + 1,  b = q1 - q_{n-1}   (for n == 1: a = q0 + 1, b = q0 - 2)
+if n == 1:
+    A = {unit(0): 1, unit(): 1}; B = {unit(0): 1, unit(): -2}
+else:
+    A = {unit(0): 1, unit(n - 1): 2, unit(): 1}; B = {unit(1 % n): 1, unit(n - 1): -1}
+def build(d):
+    return numpoly.polynomial_from_attributes(numpy.array(list(d), dtype=int), [numpy.array(c, dtype=dtype) for c in d.values()], names,
+                                              retain_coefficients=True, retain_names=True)
+want = {}
+for ea, ca in A.items():
+    for eb, cb in B.items():
+        e = tuple(x + y for x, y in zip(ea, eb))
+        want[e] = want.get(e, 0) + ca * cb
+want = {e: c for e, c in want.items() if c}
+try:
+    r = numpoly.multiply(build(A), build(B))
+except Exception as e:
+    print("RAISED", type(e).__name__, str(e)[:200]); sys.exit(0)
+got = {tuple(int(x) for x in e): c.item() for e, c in zip(r.exponents, r.coefficients) if c.item()}
+names_got = tuple(r.names)
+# (exponents are relative to r.names, which may be a subset/permutation of names)
+pos = {nm: k for k, nm in enumerate(names)}
+full = {}
+for e, c in got.items():
+    row = [0] * n
+    for x, nm in zip(e, names_got):
+        row[pos[nm]] = x
+    full[tuple(row)] = c
+print("OK" if full == want else f"WRONG terms {len(full)} vs {len(want)}")
+'''
+
+
+def gen_many(tier, rng):
+    for n in [1, 2, 64, 200, 254, 255, 256, 257, 272, 300, 400] + ([128, 258, 264, 280, 320, 512, 1000] if tier == "thorough" else []):
+        yield {"n": n, "dtype": rng.choice(["int64", "float64"])}
+
+
+@check("C20", "multiply.many_indeterminates", gen_many, functions=("numpoly.multiply", "numpoly.cmultiply"),
+       note="bounded: products of two 2-3-term polynomials in n indeterminates, n in {1, 2, 64, 200, 254..257, 272, 300, 400} (thorough: 7 "
+            "more up to 1000), int64 / float64 (the dtypes the compiled kernel handles); run in a child interpreter because the failure "
+            "mode is a crash: the product must be exact (or an exception), never a wrong term, and the interpreter must survive")
+def many_indeterminates(inp):
+    import subprocess
+    import sys
+    from .common import REPO
+    try:
+        p = subprocess.run([sys.executable, "-c", _CHILD, REPO, str(inp["n"]), inp["dtype"]], capture_output=True, text=True, timeout=300)
+    except subprocess.TimeoutExpired:
+        return None
+    out = (p.stdout or "").strip().splitlines()
+    last = out[-1] if out else ""
+    if p.returncode < 0:
+        return f"multiplying two polynomials in {inp['n']} indeterminates killed the interpreter (signal {-p.returncode})"
+    if p.returncode != 0:
+        return f"child interpreter exit {p.returncode} for {inp['n']} indeterminates: {(p.stderr or '')[-300:]}"
+    if last.startswith("WRONG"):
+        return f"product in {inp['n']} indeterminates: {last}"
+    return None
